@@ -38,6 +38,11 @@ FIXED_WITNESS = {
     "parent": ["A 0 - p 15 0 0 - - 1", "A 0 p c 15 0 0 - - 2", "D p/c 0"],
     "malias": ["A 0 - p 15 0 0 - - 1", "A 0 - x 15 0 0 - - 2", "L p al x 0", "Q p 22 0", "D p 0"],
     "alias-loop": ["L - b c 0", "L - c b 0", "L - a b 0", "R a zz 0"],
+    "unhide": ["A 0 - a 15 0 1 - - 1", "A 0 - b 15 0 0 - - 2", "Q - 22 0", "H a 0", "Q - 22 0"],
+    "hide-meta": ["A 0 - p 15 0 0 - - 1", "A 1 p a 15 0 0 - - 2", "A 0 p b 15 0 0 - - 3", "Q p 22 0", "H p/a 1", "Q p 22 0", "H p/a 0", "Q p 22 0"],
+    "delete-meta-cache": ["A 0 - p 15 0 0 - - 1", "A 1 p a 15 0 0 - - 2", "A 0 p b 15 0 0 - - 3", "Q p 22 0", "D p/a 0", "Q p 22 0"],
+    "add-cache": ["A 0 - p 15 0 0 - - 1", "Q - 22 0", "Q p 22 0", "A 0 - q 17 0 0 - - 0", "Q - 22 0", "A 0 p c 15 0 0 - - 3", "Q p 22 0", "L p al q 0", "Q p 22 0", "L - zz p 1", "Q - 22 0"],
+    "lookup-alias-subfield": ["A 0 - a 15 0 0 - - 1", "A 1 a xx 15 0 0 - - 2", "A 0 - aa 15 0 0 - - 3", "A 1 aa x 15 0 0 - - 4", "L - bbbbbbb a 0", "A 0 - z 3 0 0 bbbbbbb/xx -,- 0", "D a/xx 0"],
 }
 # open defects: the model reproduces them faithfully (model == implementation) and the
 # specification check flags them
@@ -234,8 +239,27 @@ def gen_sequence(rng, n, alias_loops):
             seen.add(t); t = aliases[t]
         return t in seen
 
+    def bracket(k0):
+        # query the container an operation touches with the same selector/flags before and after it,
+        # so that a missing cache invalidation is observed
+        if len(ops) == k0 or rng.random() > 0.4:
+            return
+        t = ops[-1].split()
+        cont = "-"
+        cand = [x for x in t[1:4] if "/" in x]
+        if t[0] in ("A", "L") and t[2 if t[0] == "A" else 1] != "-":
+            cont = t[2 if t[0] == "A" else 1]
+        elif cand and rng.random() < 0.7:
+            cont = cand[0].split("/")[0]
+        q = "Q %s %d %d" % (cont, rng.choice([22, 22, 15, 20, 21]), rng.choice([0, 0, 1]))
+        ops.insert(len(ops) - 1, q)
+        ops.append(q)
+
     for _ in range(n):
+        bracket_from = len(ops)
         r = rng.random()
+        if r >= 0.78:
+            bracket_from = -1
         if r < 0.30:
             ty = rng.choice(TYPES)
             spec = 0; parent = "-"; nm = rng.choice(TOP)
@@ -313,6 +337,8 @@ def gen_sequence(rng, n, alias_loops):
                 par = code()
             sel = rng.choice([22, 22, 22, 15, 19, 20, 21, 0, 1, 17])
             ops.append("Q %s %d %d" % (par, sel, rng.choice([0, 0, 0, 1, 2, 3])))
+        if bracket_from >= 0:
+            bracket(bracket_from)
     return ops
 
 
